@@ -54,6 +54,14 @@ Proof.
   intros Ho Hr Hm. unfold needs_build. rewrite Hm, (common_rec_ext st st' _ Ho), (source_key_ext _ _ _ _ Hr). reflexivity.
 Qed.
 
+Lemma needs_build_post_ext r t st st' outs :
+  (forall rel, In rel (map (out_rel t) outs) -> s_outs st' rel = s_outs st rel) ->
+  reads_agree r t st st' -> s_meta st' (t_label t) = s_meta st (t_label t) ->
+  needs_build_post r st' t outs = needs_build_post r st t outs.
+Proof.
+  intros Ho Hr Hm. unfold needs_build_post. rewrite Hm, (common_rec_ext st st' _ Ho), (source_key_ext _ _ _ _ Hr). reflexivity.
+Qed.
+
 Lemma common_rec_all st rk rels : rels <> [] -> (forall rel, In rel rels -> rec_at st rel = Some rk) ->
   common_rec st rels = Some rk.
 Proof.
@@ -83,19 +91,34 @@ Definition fg_file_ok (r : repo) (st : store) (t : target) (f : str) : Prop :=
   exists c e, alookup (join (t_pkg t) f) (r_files r) = Some c
               /\ s_outs st (join (t_pkg t) f) = Some e /\ str_eqb (stream (e_node e)) c = true.
 
+(* for a target with output_dirs: both checks pass, the second one on the outputs the metadata names *)
 Definition settled (r : repo) (st : store) (t : target) : Prop :=
   if is_filegroup t then forall f, In f (outputs t) -> fg_file_ok r st t f
+  else if could_modify t then needs_build r st t = false /\ needs_build_post r st t (meta_outs st t) = false
   else needs_build r st t = false.
 
+(* the paths a settled target relies on *)
+Definition own_rels (st : store) (t : target) : list str :=
+  out_rels t ++ (if could_modify t then map (out_rel t) (meta_outs st t) else []).
+
 Lemma settled_ext r t st st' :
-  (forall rel, In rel (out_rels t) -> s_outs st' rel = s_outs st rel) ->
+  (forall rel, In rel (own_rels st t) -> s_outs st' rel = s_outs st rel) ->
   reads_agree r t st st' -> s_meta st' (t_label t) = s_meta st (t_label t) ->
+  s_dyn st' (t_label t) = s_dyn st (t_label t) ->
   settled r st t -> settled r st' t.
 Proof.
-  intros Ho Hr Hm. unfold settled. destruct (is_filegroup t).
+  intros Ho Hr Hm Hd. unfold settled.
+  assert (Ho1 : forall rel, In rel (out_rels t) -> s_outs st' rel = s_outs st rel).
+  { intros rel Hi. apply Ho. unfold own_rels. apply in_or_app. left. exact Hi. }
+  destruct (is_filegroup t).
   - intros H f Hf. destruct (H f Hf) as (c & e & H1 & H2 & H3). exists c, e. repeat split; try assumption.
-    rewrite Ho; [exact H2|]. unfold out_rels, out_rel. apply in_map. exact Hf.
-  - intros H. rewrite (needs_build_ext r t st st' Ho Hr Hm). exact H.
+    rewrite Ho1; [exact H2|]. unfold out_rels, out_rel. apply in_map. exact Hf.
+  - destruct (could_modify t) eqn:Ecm.
+    + intros [H1 H2]. split; [rewrite (needs_build_ext r t st st' Ho1 Hr Hm); exact H1|].
+      assert (Emo : meta_outs st' t = meta_outs st t) by (unfold meta_outs; rewrite Hd; reflexivity).
+      rewrite Emo. rewrite (needs_build_post_ext r t st st' _); [exact H2| |exact Hr|exact Hm].
+      intros rel Hi. apply Ho. unfold own_rels. rewrite Ecm. apply in_or_app. right. exact Hi.
+    + intros H. rewrite (needs_build_ext r t st st' Ho1 Hr Hm). exact H.
 Qed.
 
 Lemma fg_noop r t rn fs : (forall f, In f fs -> fg_file_ok r (rn_st rn) t f) ->
@@ -121,7 +144,9 @@ Lemma settled_noop r rn t : settled r (rn_st rn) t -> blocked r rn t = false -> 
 Proof.
   unfold settled, build_one. intros Hs ->. destruct (is_filegroup t).
   - unfold build_filegroup. apply fg_noop. exact Hs.
-  - unfold build_rule. rewrite Hs. reflexivity.
+  - destruct (could_modify t).
+    + destruct Hs as [H1 H2]. unfold build_rule_od. rewrite H1, H2. reflexivity.
+    + unfold build_rule. rewrite Hs. reflexivity.
 Qed.
 
 (* ------------------------------------------------------------------------------------------ *)
@@ -221,18 +246,98 @@ Proof.
       * intros p c Hc Hp. apply IHb; [exact Hc|]. apply Hpres; assumption.
 Qed.
 
+Lemma out_rels_nonempty t : has_outs t = true -> is_filegroup t = false -> out_rels t <> [].
+Proof.
+  intros Hhas Efg. unfold has_outs in Hhas. rewrite Efg in Hhas. cbn [orb] in Hhas. unfold out_rels, outputs.
+  unfold is_filegroup in Efg.
+  destruct (t_kind t); try discriminate; destruct (t_outs t) as [|o os]; try discriminate;
+    cbn [sort_str fold_right]; (destruct (fold_right ins_str [] os); cbn [ins_str]; [discriminate|destruct (str_leb _ _); discriminate]).
+Qed.
+
+Lemma strs_eqb_refl (a : list str) : list_eqb str_eqb a a = true.
+Proof. destruct (strs_eqb_spec a a); congruence. Qed.
+
+Lemma failed_cons_neq (l : list str) x : x :: l = l -> False.
+Proof. intros H. apply (f_equal (@length str)) in H. cbn in H. lia. Qed.
+
+(* a successful build of an output_dirs target from its declared outputs leaves both checks passing *)
+Lemma rebuild_od_settles r rn t :
+  has_outs t = true -> is_filegroup t = false ->
+  (forall p, In p (all_paths r t) -> fst p = true -> ~ In (snd p) (claimed r t)) -> could_modify t = true ->
+  rn_failed (rebuild_od r rn t (outputs t)) = rn_failed rn ->
+  let st1 := rn_st (rebuild_od r rn t (outputs t)) in
+  needs_build r st1 t = false /\ needs_build_post r st1 t (meta_outs st1 t) = false
+  /\ s_meta st1 (t_label t) = true /\ s_dyn st1 (t_label t) = found_names r t.
+Proof.
+  intros Hhas Efg Hdisj Hcm. unfold rebuild_od.
+  destruct (source_key r (rn_st rn) t) as [sk|] eqn:Esk.
+  2:{ unfold fail_run. cbn. intros H. exfalso. eapply failed_cons_neq. exact H. }
+  unfold run_od. destruct (gather (read r (rn_st rn)) (all_paths r t)) as [ins|] eqn:Eg.
+  2:{ unfold fail_run. cbn. intros H. exfalso. eapply failed_cons_neq. exact H. }
+  destruct (od_cmd (outputs t) (tmp_ins ins)) as [[found news]|] eqn:Ec.
+  2:{ cbn. intros H. exfalso. eapply failed_cons_neq. exact H. }
+  pose proof (od_cmd_found _ _ _ _ Ec) as Hf. subst found. rewrite (found_names_spec r (rn_st rn) t ins Eg).
+  set (outs1 := add_outs (found_names r t) (outputs t)).
+  destruct (collect (copy_entries (tmp_ins ins) ++ news) outs1) as [moved|] eqn:Eco.
+  2:{ cbn. intros H. exfalso. eapply failed_cons_neq. exact H. }
+  cbn [rn_st rn_failed]. intros _.
+  pose proof (collect_names _ _ _ Eco) as Hnames.
+  set (rk := ((t_defkey t, outs1), sk)).
+  set (st0 := set_meta_dyn (rn_st rn) (t_label t) (found_names r t)).
+  set (st1 := fold_left (move_output rk t) moved st0).
+  assert (Hm : s_meta st1 (t_label t) = true).
+  { subst st1 st0. rewrite move_fold_meta. cbn. unfold upd. rewrite str_eqb_refl. reflexivity. }
+  assert (Hd : s_dyn st1 (t_label t) = found_names r t).
+  { subst st1 st0. rewrite move_fold_dyn. cbn. unfold upd. rewrite str_eqb_refl. reflexivity. }
+  assert (Hmo : meta_outs st1 t = outs1) by (unfold meta_outs; rewrite Hd; reflexivity).
+  assert (Hrec : forall o, In o outs1 -> rec_at st1 (out_rel t o) = Some rk).
+  { intros o Ho. rewrite <- Hnames in Ho. destruct (move_fold_rec rk t moved st0 o Ho) as [e [He Hr]].
+    unfold rec_at. subst st1. rewrite He. exact Hr. }
+  assert (Hsub : forall o, In o (outputs t) -> In o outs1).
+  { intros o Ho. subst outs1. apply add_outs_In. right. exact Ho. }
+  assert (Hagree : reads_agree r t (rn_st rn) st1).
+  { intros p Hp Hg. subst st1. rewrite move_fold_outs; [reflexivity|]. rewrite Hnames.
+    intros Hi. apply (Hdisj p Hp Hg). apply in_map_iff in Hi. destruct Hi as [o [Hrel Ho]]. subst outs1.
+    apply add_outs_In in Ho. unfold claimed. rewrite Hcm. apply in_or_app. rewrite <- Hrel.
+    destruct Ho as [Ho|Ho]; [right|left]; apply in_map; exact Ho. }
+  assert (Hne : out_rels t <> []) by (apply out_rels_nonempty; assumption).
+  assert (Hcr1 : common_rec st1 (out_rels t) = Some rk).
+  { apply common_rec_all; [exact Hne|]. intros rel Hrel. unfold out_rels in Hrel. apply in_map_iff in Hrel.
+    destruct Hrel as [o [<- Ho]]. apply Hrec. apply Hsub. exact Ho. }
+  assert (Hcr2 : common_rec st1 (map (out_rel t) outs1) = Some rk).
+  { apply common_rec_all.
+    - unfold out_rels in Hne. destruct (outputs t) as [|o os] eqn:Eo; [exfalso; apply Hne; reflexivity|].
+      intros E. apply map_eq_nil in E. pose proof (Hsub o (or_introl eq_refl)) as Hi. rewrite E in Hi. destruct Hi.
+    - intros rel Hrel. apply in_map_iff in Hrel. destruct Hrel as [o [<- Ho]]. apply Hrec. exact Ho. }
+  assert (Hsk : source_key r st1 t = Some sk) by (rewrite (source_key_ext r t _ _ Hagree); exact Esk).
+  split; [|split; [|split; [exact Hm|exact Hd]]].
+  - unfold needs_build. rewrite Hm, Hcr1, Hsk. subst rk. unfold rk_def. cbn [fst snd negb orb].
+    rewrite str_eqb_refl, skey_eqb_refl. reflexivity.
+  - rewrite Hmo. unfold needs_build_post. rewrite Hm, Hcr2, Hsk. subst rk. unfold rk_def, rk_outs. cbn [fst snd negb orb].
+    rewrite str_eqb_refl, strs_eqb_refl, skey_eqb_refl. reflexivity.
+Qed.
+
 Lemma build_one_settles r rn t :
   has_outs t = true ->
-  (forall p, In p (all_paths r t) -> fst p = true -> ~ In (snd p) (out_rels t)) ->
+  (forall p, In p (all_paths r t) -> fst p = true -> ~ In (snd p) (claimed r t)) ->
+  quiet_step r rn t ->
   rn_failed (build_one false r rn t) = rn_failed rn ->
   settled r (rn_st (build_one false r rn t)) t.
 Proof.
-  intros Hhas Hdisj. unfold build_one, settled.
+  intros Hhas Hdisj Hq. unfold build_one, settled. unfold quiet_step in Hq.
   destruct (blocked r rn t).
   { unfold fail_run. cbn. intros H. exfalso. apply (f_equal (@length str)) in H. cbn in H. lia. }
+  specialize (Hq eq_refl).
   destruct (is_filegroup t) eqn:Efg.
   - intros Hf. unfold build_filegroup in *. destruct (fg_settles r t (outputs t) rn) as (_ & H). apply H. exact Hf.
-  - unfold build_rule. destruct (needs_build r (rn_st rn) t) eqn:Enb; cbn [negb]; [|intros _; exact Enb].
+  - destruct (could_modify t) eqn:Ecm.
+    { unfold build_rule_od. unfold stale_flow in Hq. rewrite Ecm in Hq. cbn [andb] in Hq.
+      destruct (needs_build r (rn_st rn) t) eqn:Enb.
+      - intros Hf. destruct (rebuild_od_settles r rn t Hhas Efg Hdisj Ecm Hf) as (H1 & H2 & _). split; assumption.
+      - cbn [negb andb] in Hq. rewrite Hq. intros _. split; assumption. }
+    assert (Hdisj' : forall p, In p (all_paths r t) -> fst p = true -> ~ In (snd p) (out_rels t)).
+    { intros p Hp Hg Hi. apply (Hdisj p Hp Hg). apply out_rels_claimed. exact Hi. }
+    unfold build_rule. destruct (needs_build r (rn_st rn) t) eqn:Enb; cbn [negb]; [|intros _; exact Enb].
     destruct (source_key r (rn_st rn) t) as [sk|] eqn:Esk.
     2:{ unfold fail_run. cbn. intros H. exfalso. apply (f_equal (@length str)) in H. cbn in H. lia. }
     unfold run_action. destruct (gather (read r (rn_st rn)) (all_paths r t)) as [ins|].
@@ -241,22 +346,19 @@ Proof.
     2:{ cbn. intros H. exfalso. apply (f_equal (@length str)) in H. cbn in H. lia. }
     cbn [rn_st rn_failed]. intros _.
     apply act_names in Ha.
-    set (rk := (t_defkey t, sk)). set (st1 := fold_left (move_output rk t) news (set_meta (rn_st rn) (t_label t))).
+    set (rk := ((t_defkey t, @nil str), sk)). set (st1 := fold_left (move_output rk t) news (set_meta (rn_st rn) (t_label t))).
     assert (Hagree : reads_agree r t (rn_st rn) st1).
-    { intros p Hp Hg. subst st1. rewrite move_fold_outs; [reflexivity|]. rewrite Ha. apply Hdisj; assumption. }
+    { intros p Hp Hg. subst st1. rewrite move_fold_outs; [reflexivity|]. rewrite Ha. apply Hdisj'; assumption. }
     unfold needs_build.
     assert (Hm : s_meta st1 (t_label t) = true) by (subst st1; rewrite move_fold_meta; apply set_meta_same).
     rewrite Hm. cbn [negb orb].
     assert (Hcr : common_rec st1 (out_rels t) = Some rk).
     { apply common_rec_all.
-      - unfold has_outs in Hhas. rewrite Efg in Hhas. cbn [orb] in Hhas. unfold out_rels, outputs.
-        unfold is_filegroup in Efg.
-        destruct (t_kind t); try discriminate; destruct (t_outs t) as [|o os]; try discriminate;
-          cbn [sort_str fold_right]; (destruct (fold_right ins_str [] os); cbn [ins_str]; [discriminate|destruct (str_leb _ _); discriminate]).
+      - apply out_rels_nonempty; assumption.
       - intros rel Hrel. unfold out_rels in Hrel. apply in_map_iff in Hrel. destruct Hrel as [o [<- Ho]].
         rewrite <- Ha in Ho. destruct (move_fold_rec rk t news (set_meta (rn_st rn) (t_label t)) o Ho) as [e [He Hr]].
         unfold rec_at. subst st1. rewrite He. exact Hr. }
-    rewrite Hcr. subst rk. cbn [fst snd]. rewrite str_eqb_refl. cbn [negb orb].
+    rewrite Hcr. subst rk. unfold rk_def. cbn [fst snd]. rewrite str_eqb_refl. cbn [negb orb].
     rewrite (source_key_ext r t _ _ Hagree), Esk, skey_eqb_refl. reflexivity.
 Qed.
 
@@ -265,10 +367,11 @@ Qed.
 
 Record WF (r : repo) : Prop := {
   wf_labels : NoDup (map t_label (r_targets r));
-  wf_paths : NoDup (flat_map out_rels (r_targets r));
+  wf_paths : NoDup (flat_map (claimed r) (r_targets r));
   wf_topo : forall done t todo, r_targets r = done ++ t :: todo ->
             forall l, In l (label_srcs (t_srcs t)) -> exists d, In d done /\ find_target (r_targets r) l = Some d;
-  wf_has : forall t, In t (r_targets r) -> has_outs t = true
+  wf_has : forall t, In t (r_targets r) -> has_outs t = true;
+  wf_nood : forall t l d, In t (r_targets r) -> In l (label_srcs (t_srcs t)) -> find_target (r_targets r) l = Some d -> could_modify d = false
 }.
 
 Lemma find_target_first ts : forall l d, In d ts -> t_label d = l -> NoDup (map t_label ts) -> find_target ts l = Some d.
@@ -307,7 +410,9 @@ Qed.
 
 Lemma wf_repo_WF r : wf_repo r = true -> WF r.
 Proof.
-  unfold wf_repo. intros H. repeat (apply andb_prop in H; destruct H as [H ?]).
+  unfold wf_repo. intros H.
+  apply andb_prop in H. destruct H as [H Hnood]. apply andb_prop in H. destruct H as [H Hhas].
+  apply andb_prop in H. destruct H as [H Hpaths]. apply andb_prop in H. destruct H as [Hlab Htopo].
   assert (Hnd : NoDup (map t_label (r_targets r))) by (apply nodup_str_NoDup; assumption).
   constructor.
   - exact Hnd.
@@ -316,7 +421,9 @@ Proof.
     destruct (topo_spec (r_targets r) [] [] (r_targets r) eq_refl Hnd) with (pre := done) (t := t) (post := todo) (l := l) as [d [Hd Hf]]; auto.
     + intros x [].
     + exists d. split; assumption.
-  - intros t Ht. rewrite forallb_forall in H0. apply H0. exact Ht.
+  - intros t Ht. rewrite forallb_forall in Hhas. apply Hhas. exact Ht.
+  - intros t l d Ht Hl Hf. rewrite forallb_forall in Hnood. specialize (Hnood t Ht). unfold no_od_deps in Hnood.
+    rewrite forallb_forall in Hnood. specialize (Hnood l Hl). rewrite Hf in Hnood. apply negb_true_iff in Hnood. exact Hnood.
 Qed.
 
 Lemma nodup_app_disjoint {A} (l1 l2 : list A) x : NoDup (l1 ++ l2) -> In x l1 -> In x l2 -> False.
@@ -328,14 +435,20 @@ Proof.
   - apply IH; assumption.
 Qed.
 
-(* outputs of a target are disjoint from the outputs of every earlier target *)
-Lemma outs_disjoint r done t todo d rel : WF r -> r_targets r = done ++ t :: todo -> In d done ->
-  In rel (out_rels d) -> In rel (out_rels t) -> False.
+(* what a target claims is disjoint from what every earlier target claims *)
+Lemma claimed_disjoint r done t todo d rel : WF r -> r_targets r = done ++ t :: todo -> In d done ->
+  In rel (claimed r d) -> In rel (claimed r t) -> False.
 Proof.
   intros W Hs Hd H1 H2. pose proof (wf_paths r W) as Hnd. rewrite Hs, flat_map_app in Hnd.
   eapply (nodup_app_disjoint _ _ rel Hnd).
   - apply in_flat_map. exists d. split; assumption.
   - cbn [flat_map]. apply in_or_app. left. exact H2.
+Qed.
+
+Lemma outs_disjoint r done t todo d rel : WF r -> r_targets r = done ++ t :: todo -> In d done ->
+  In rel (out_rels d) -> In rel (out_rels t) -> False.
+Proof.
+  intros W Hs Hd H1 H2. eapply (claimed_disjoint r done t todo d rel); try eassumption; apply out_rels_claimed; assumption.
 Qed.
 
 (* every generated input of a target is an output of an earlier target *)
@@ -355,10 +468,10 @@ Proof.
 Qed.
 
 Lemma inputs_not_own r done t todo p : WF r -> r_targets r = done ++ t :: todo ->
-  In p (all_paths r t) -> fst p = true -> ~ In (snd p) (out_rels t).
+  In p (all_paths r t) -> fst p = true -> ~ In (snd p) (claimed r t).
 Proof.
   intros W Hs Hp Hg Hown. destruct (inputs_earlier r done t todo p W Hs Hp Hg) as [d [Hd Hrel]].
-  eapply outs_disjoint; eassumption.
+  eapply (claimed_disjoint r done t todo d); try eassumption. apply out_rels_claimed. exact Hrel.
 Qed.
 
 Lemma labels_distinct r done t todo d : WF r -> r_targets r = done ++ t :: todo -> In d done -> t_label d <> t_label t.
@@ -369,21 +482,39 @@ Proof.
   - cbn [map]. left. symmetry. exact E.
 Qed.
 
+(* the metadata of an output_dirs target names only what the target can discover *)
+Definition DynOK (r : repo) (st : store) : Prop :=
+  forall d, In d (r_targets r) -> could_modify d = true -> incl (s_dyn st (t_label d)) (found_names r d).
+
+Lemma own_rels_claimed r st d : In d (r_targets r) -> DynOK r st -> forall rel, In rel (own_rels st d) -> In rel (claimed r d).
+Proof.
+  intros Hd Hdyn rel Hi. unfold own_rels in Hi. unfold claimed. apply in_app_or in Hi. apply in_or_app.
+  destruct Hi as [Hi|Hi]; [left; exact Hi|]. destruct (could_modify d) eqn:Ecm; [|destruct Hi].
+  apply in_map_iff in Hi. destruct Hi as [o [<- Ho]]. unfold meta_outs in Ho. apply add_outs_In in Ho.
+  destruct Ho as [Ho|Ho]; [right; apply in_map; apply (Hdyn d Hd Ecm); exact Ho|left; unfold out_rels; apply in_map; exact Ho].
+Qed.
+
 (* building a later target does not disturb an earlier settled one *)
 Lemma settled_preserved r done t todo d rn : WF r -> r_targets r = done ++ t :: todo -> In d done ->
+  DynOK r (rn_st rn) -> quiet_step r rn t ->
   settled r (rn_st rn) d -> settled r (rn_st (build_one false r rn t)) d.
 Proof.
-  intros W Hs Hd Hset. destruct (build_one_frame r rn t) as [Ho Hm].
+  intros W Hs Hd Hdyn Hq Hset. destruct (build_one_frame r rn t Hq) as [Ho Hm].
+  assert (Hdin : In d (r_targets r)) by (rewrite Hs; apply in_or_app; left; exact Hd).
+  assert (Hlab : t_label d <> t_label t) by (eapply labels_distinct; eassumption).
   apply in_split in Hd. destruct Hd as [d1 [d2 Hdone]].
-  eapply settled_ext; [| | |exact Hset].
-  - intros rel Hrel. apply Ho. intros Hown. eapply (outs_disjoint r done t todo d); try eassumption.
-    subst done. apply in_or_app. right. left. reflexivity.
+  eapply settled_ext; [| | | |exact Hset].
+  - intros rel Hrel. apply Ho. intros Hown. eapply (claimed_disjoint r done t todo d); try eassumption.
+    + subst done. apply in_or_app. right. left. reflexivity.
+    + eapply own_rels_claimed; eassumption.
   - intros p Hp Hg. apply Ho. intros Hown.
     assert (Hs' : r_targets r = d1 ++ d :: (d2 ++ t :: todo)) by (rewrite Hs, Hdone, <- app_assoc; reflexivity).
     destruct (inputs_earlier r d1 d _ p W Hs' Hp Hg) as [d0 [Hd0 Hrel]].
-    eapply (outs_disjoint r done t todo d0); try eassumption.
-    subst done. apply in_or_app. left. exact Hd0.
-  - apply Hm. eapply labels_distinct; try eassumption. subst done. apply in_or_app. right. left. reflexivity.
+    eapply (claimed_disjoint r done t todo d0); try eassumption.
+    + subst done. apply in_or_app. left. exact Hd0.
+    + apply out_rels_claimed. exact Hrel.
+  - apply Hm. exact Hlab.
+  - apply Hm. exact Hlab.
 Qed.
 
 (* ------------------------------------------------------------------------------------------ *)
@@ -396,23 +527,65 @@ Proof.
   exists (pre ++ repeat (t_label t) n). rewrite Hpre, Hn, app_assoc. reflexivity.
 Qed.
 
-Lemma run_settles r : WF r -> forall todo done rn, r_targets r = done ++ todo ->
-  rn_failed rn = [] -> (forall d, In d done -> settled r (rn_st rn) d) ->
-  rn_failed (fold_left (build_one false r) todo rn) = [] ->
-  forall d, In d (r_targets r) -> settled r (rn_st (fold_left (build_one false r) todo rn)) d.
+Lemma stale_in_cons c r t todo rn : stale_in c r (t :: todo) rn = false ->
+  quiet_step r rn t /\ stale_in c r todo (build_one c r rn t) = false.
 Proof.
-  intros W. induction todo as [|t todo IH]; intros done rn Hs Hf Hinv Hfin d Hd; cbn [fold_left] in *.
-  - rewrite Hs, app_nil_r in Hd. apply Hinv. exact Hd.
-  - assert (Hf1 : rn_failed (build_one false r rn t) = []).
+  cbn [stale_in]. intros H. apply orb_false_elim in H. destruct H as [H1 H2]. split; [|exact H2].
+  unfold quiet_step. intros Hb. rewrite Hb in H1. exact H1.
+Qed.
+
+(* the metadata keeps naming only discoverable files *)
+Lemma dynok_step r done t todo rn : WF r -> r_targets r = done ++ t :: todo -> quiet_step r rn t ->
+  DynOK r (rn_st rn) -> DynOK r (rn_st (build_one false r rn t)).
+Proof.
+  intros W Hs Hq Hdyn d Hd Ecm.
+  destruct (list_eq_dec N.eq_dec (t_label d) (t_label t)) as [El|Hl].
+  - assert (d = t).
+    { pose proof (wf_labels r W) as Hnd. rewrite Hs in Hd.
+      assert (Ht : In t (r_targets r)) by (rewrite Hs; apply in_or_app; right; left; reflexivity).
+      rewrite <- Hs in Hd.
+      assert (Hf1 := find_target_first (r_targets r) (t_label t) d Hd El Hnd).
+      assert (Hf2 := find_target_first (r_targets r) (t_label t) t Ht eq_refl Hnd). congruence. }
+    subst d. unfold build_one. destruct (blocked r rn t); [apply Hdyn; assumption|].
+    assert (Efg : is_filegroup t = false) by (unfold could_modify in Ecm; unfold is_filegroup; destruct (t_kind t); [reflexivity|discriminate|discriminate]).
+    rewrite Efg, Ecm.
+    assert (Hre : forall outs0, incl (s_dyn (rn_st (rebuild_od r rn t outs0)) (t_label t)) (found_names r t)).
+    { intros outs0. unfold rebuild_od. destruct (source_key r (rn_st rn) t) as [sk|].
+      2:{ unfold fail_run. cbn [rn_st]. rewrite remove_outs_dyn. apply Hdyn; assumption. }
+      unfold run_od. destruct (gather (read r (rn_st rn)) (all_paths r t)) as [ins|] eqn:Eg.
+      2:{ unfold fail_run. cbn [rn_st]. rewrite remove_outs_dyn. apply Hdyn; assumption. }
+      destruct (od_cmd outs0 (tmp_ins ins)) as [[found news]|] eqn:Ec.
+      2:{ cbn [rn_st]. rewrite remove_outs_dyn. apply Hdyn; assumption. }
+      pose proof (od_cmd_found _ _ _ _ Ec) as Hf. subst found. rewrite (found_names_spec r (rn_st rn) t ins Eg).
+      destruct (collect _ _); cbn [rn_st]; [rewrite move_fold_dyn|rewrite remove_outs_dyn];
+        cbn; unfold upd; rewrite str_eqb_refl; apply incl_refl. }
+    unfold build_rule_od. destruct (needs_build r (rn_st rn) t); [apply Hre|].
+    destruct (needs_build_post _ _ _ _); [apply Hre|apply Hdyn; assumption].
+  - destruct (build_one_frame r rn t Hq) as [_ Hm]. destruct (Hm (t_label d) Hl) as [_ E]. rewrite E. apply Hdyn; assumption.
+Qed.
+
+Lemma run_settles r : WF r -> forall todo done rn, r_targets r = done ++ todo ->
+  rn_failed rn = [] -> DynOK r (rn_st rn) -> stale_in false r todo rn = false ->
+  (forall d, In d done -> settled r (rn_st rn) d) ->
+  rn_failed (fold_left (build_one false r) todo rn) = [] ->
+  (forall d, In d (r_targets r) -> settled r (rn_st (fold_left (build_one false r) todo rn)) d)
+  /\ DynOK r (rn_st (fold_left (build_one false r) todo rn)).
+Proof.
+  intros W. induction todo as [|t todo IH]; intros done rn Hs Hf Hdyn Hst Hinv Hfin; cbn [fold_left] in *.
+  - split; [|exact Hdyn]. intros d Hd. rewrite Hs, app_nil_r in Hd. apply Hinv. exact Hd.
+  - destruct (stale_in_cons _ _ _ _ _ Hst) as [Hq Hst'].
+    assert (Hf1 : rn_failed (build_one false r rn t) = []).
     { destruct (failed_mono false r todo (build_one false r rn t)) as [pre Hpre]. rewrite Hfin in Hpre.
       symmetry in Hpre. apply app_eq_nil in Hpre. apply Hpre. }
     apply (IH (done ++ [t]) (build_one false r rn t)); auto.
     + rewrite <- app_assoc. exact Hs.
+    + eapply dynok_step; eassumption.
     + intros x Hx. apply in_app_or in Hx. destruct Hx as [Hx|[<-|[]]].
       * eapply settled_preserved; eauto.
       * apply build_one_settles.
         -- apply (wf_has r W). rewrite Hs. apply in_or_app. right. left. reflexivity.
         -- intros p Hp Hg. eapply inputs_not_own; eauto.
+        -- exact Hq.
         -- rewrite Hf1, Hf. reflexivity.
 Qed.
 
@@ -430,12 +603,25 @@ Proof.
   - intros d Hd. apply Hset. right. exact Hd.
 Qed.
 
-(* C03 (a): after a successful build of a well-formed repository, building again does nothing at all *)
+(* executable form of DynOK for the initial plz-out *)
+Definition dyn_ok (r : repo) (st : store) : bool :=
+  forallb (fun d => negb (could_modify d) || subset (s_dyn st (t_label d)) (found_names r d)) (r_targets r).
+
+Lemma dyn_ok_DynOK r st : dyn_ok r st = true -> DynOK r st.
+Proof.
+  unfold dyn_ok. intros H d Hd Ecm. rewrite forallb_forall in H. specialize (H d Hd). rewrite Ecm in H. cbn [negb orb] in H.
+  unfold subset in H. rewrite forallb_forall in H. intros x Hx. apply mem_In. apply H. exact Hx.
+Qed.
+
+(* C03 (a): after a successful build of a well-formed repository in which no output_dirs target was rebuilt with
+   the outputs of an old metadata file (stale_in), from a plz-out whose metadata names only discoverable files
+   (dyn_ok; both hold trivially without output_dirs targets), building again does nothing at all *)
 Theorem noop_build_all r st : wf_repo r = true ->
   run_ok (build_all false r st) = true ->
+  stale_in false r (r_targets r) (mkRun st [] []) = false -> dyn_ok r st = true ->
   build_all false r (rn_st (build_all false r st)) = mkRun (rn_st (build_all false r st)) [] [].
 Proof.
-  intros Hwf Hok. apply wf_repo_WF in Hwf. unfold build_all in *.
+  intros Hwf Hok Hst Hdyn. apply wf_repo_WF in Hwf. apply dyn_ok_DynOK in Hdyn. unfold build_all in *.
   set (rn1 := fold_left (build_one false r) (r_targets r) (mkRun st [] [])) in *.
   assert (Hf : rn_failed rn1 = []) by (unfold run_ok in Hok; destruct (rn_failed rn1); [reflexivity|discriminate]).
   apply (run_noop r Hwf (r_targets r) []); auto.
@@ -461,29 +647,34 @@ Qed.
 
 (* what a target looks like to needs_build does not change while OTHER targets of the repository build *)
 Lemma view_preserved r : WF r -> forall pre rn done t todo, r_targets r = done ++ pre ++ t :: todo ->
+  stale_in false r pre rn = false ->
   let rn' := fold_left (build_one false r) pre rn in
   (forall rel, In rel (out_rels t) -> s_outs (rn_st rn') rel = s_outs (rn_st rn) rel)
   /\ s_meta (rn_st rn') (t_label t) = s_meta (rn_st rn) (t_label t).
 Proof.
-  intros W. induction pre as [|u pre IH]; intros rn done t todo Hs; cbn [fold_left]; [split; reflexivity|].
+  intros W. induction pre as [|u pre IH]; intros rn done t todo Hs Hst; cbn [fold_left]; [split; reflexivity|].
+  destruct (stale_in_cons _ _ _ _ _ Hst) as [Hq Hst'].
   cbn zeta. destruct (IH (build_one false r rn u) (done ++ [u]) t todo) as [Ho Hm].
   { rewrite <- app_assoc. exact Hs. }
-  destruct (build_one_frame r rn u) as [Ho1 Hm1].
+  { exact Hst'. }
+  destruct (build_one_frame r rn u Hq) as [Ho1 Hm1].
   assert (Hs' : r_targets r = (done ++ u :: pre) ++ t :: todo) by (rewrite Hs, <- app_assoc; reflexivity).
   split.
   - intros rel Hrel. rewrite Ho by exact Hrel. apply Ho1. intros Hu.
-    eapply (outs_disjoint r (done ++ u :: pre) t todo u); try eassumption.
-    apply in_or_app. right. left. reflexivity.
+    eapply (claimed_disjoint r (done ++ u :: pre) t todo u); try eassumption.
+    + apply in_or_app. right. left. reflexivity.
+    + apply out_rels_claimed. exact Hrel.
   - rewrite Hm. apply Hm1. intros E.
     eapply (labels_distinct r (done ++ u :: pre) t todo u); try eassumption.
     + apply in_or_app. right. left. reflexivity.
     + symmetry. exact E.
 Qed.
 
-(* C03 (b), one step: the command of t runs only if needsBuilding said so, and needsBuilding says so only
-   for one of the listed reasons *)
+(* C03 (b), one step: the command of t runs only if needsBuilding said so - before the build, or, for a target
+   with output_dirs, after the outputs of its metadata were added (stale_flow) *)
 Lemma executed_needs_build r rn t :
-  rn_log (build_one false r rn t) = t_label t :: rn_log rn -> needs_build r (rn_st rn) t = true.
+  rn_log (build_one false r rn t) = t_label t :: rn_log rn ->
+  needs_build r (rn_st rn) t = true \/ stale_flow r (rn_st rn) t = true.
 Proof.
   unfold build_one. intros H.
   assert (Hne : forall l : list str, l <> t_label t :: l).
@@ -491,48 +682,78 @@ Proof.
   destruct (blocked r rn t); [exfalso; apply (Hne _ H)|].
   destruct (is_filegroup t).
   - destruct (build_filegroup_frame r t rn) as (_ & _ & Hl & _). rewrite Hl in H. exfalso. apply (Hne _ H).
-  - unfold build_rule in H. destruct (needs_build r (rn_st rn) t); [reflexivity|]. exfalso. apply (Hne _ H).
+  - destruct (could_modify t) eqn:Ecm.
+    + unfold build_rule_od in H. unfold stale_flow. rewrite Ecm. destruct (needs_build r (rn_st rn) t); [left; reflexivity|].
+      right. cbn [negb andb]. destruct (needs_build_post _ _ _ _); [reflexivity|]. exfalso. apply (Hne _ H).
+    + unfold build_rule in H. destruct (needs_build r (rn_st rn) t); [left; reflexivity|]. exfalso. apply (Hne _ H).
 Qed.
 
 Lemma needs_build_reasons r st t : needs_build r st t = true ->
   s_meta st (t_label t) = false
   \/ common_rec st (out_rels t) = None
   \/ exists rk, common_rec st (out_rels t) = Some rk
-       /\ (fst rk <> t_defkey t \/ source_key r st t = None \/ exists k, source_key r st t = Some k /\ k <> snd rk).
+       /\ (rk_def rk <> t_defkey t \/ source_key r st t = None \/ exists k, source_key r st t = Some k /\ k <> snd rk).
 Proof.
   unfold needs_build. destruct (s_meta st (t_label t)); [|left; reflexivity]. cbn [negb orb].
   destruct (common_rec st (out_rels t)) as [rk|]; [|right; left; reflexivity].
   intros H. right. right. exists rk. split; [reflexivity|].
-  destruct (str_eqb_spec (fst rk) (t_defkey t)) as [E|E]; [|left; exact E]. cbn [negb orb] in H.
+  destruct (str_eqb_spec (rk_def rk) (t_defkey t)) as [E|E]; [|left; exact E]. cbn [negb orb] in H.
   destruct (source_key r st t) as [k|]; [|right; left; reflexivity].
   right. right. exists k. split; [reflexivity|]. destruct (skey_eqb_spec (snd rk) k) as [E'|E']; [discriminate|].
   intros ->. apply E'. reflexivity.
 Qed.
 
-(* C03 (b), two builds: r1 was built successfully (store st1 = its result); the tree was edited to r2.
-   A rule t that is in both with the same definition, and whose source key when its turn comes in the
-   second build equals its source key after the first build, is not executed - whatever happened to
+(* the post-build check fails only when an output named by the metadata has no or another record, the recorded
+   post-build rule hash is not the one over the present outputs, or a source changed *)
+Lemma stale_flow_reasons r st t : stale_flow r st t = true ->
+  could_modify t = true /\ needs_build r st t = false
+  /\ (common_rec st (map (out_rel t) (meta_outs st t)) = None
+      \/ exists rk, common_rec st (map (out_rel t) (meta_outs st t)) = Some rk
+           /\ (rk_def rk <> t_defkey t \/ rk_outs rk <> meta_outs st t \/ source_key r st t = None
+               \/ exists k, source_key r st t = Some k /\ k <> snd rk)).
+Proof.
+  unfold stale_flow. intros H. apply andb_prop in H. destruct H as [H Hp]. apply andb_prop in H. destruct H as [Hc Hn].
+  apply negb_true_iff in Hn. split; [exact Hc|]. split; [exact Hn|].
+  unfold needs_build_post in Hp.
+  assert (Hm : s_meta st (t_label t) = true).
+  { unfold needs_build in Hn. destruct (s_meta st (t_label t)); [reflexivity|discriminate]. }
+  rewrite Hm in Hp. cbn [negb orb] in Hp.
+  destruct (common_rec st (map (out_rel t) (meta_outs st t))) as [rk|]; [|left; reflexivity].
+  right. exists rk. split; [reflexivity|].
+  destruct (str_eqb_spec (rk_def rk) (t_defkey t)) as [E|E]; [|left; exact E].
+  destruct (strs_eqb_spec (rk_outs rk) (meta_outs st t)) as [E2|E2]; [|right; left; exact E2].
+  cbn [andb negb orb] in Hp.
+  destruct (source_key r st t) as [k|]; [|right; right; left; reflexivity].
+  right. right. right. exists k. split; [reflexivity|]. destruct (skey_eqb_spec (snd rk) k) as [E'|E']; [discriminate|].
+  intros ->. apply E'. reflexivity.
+Qed.
+
+(* C03 (c), two builds: r1 was built successfully (store st1 = its result); the tree was edited to r2.
+   A rule t (without output_dirs) that is in both with the same definition, and whose source key when its turn
+   comes in the second build equals its source key after the first build, is not executed - whatever happened to
    its dependencies in between (in particular when they were rebuilt to outputs with equal path hashes). *)
 Theorem cutoff_two_builds r1 r2 st0 t pre post :
   wf_repo r1 = true -> wf_repo r2 = true ->
   run_ok (build_all false r1 st0) = true ->
-  In t (r_targets r1) -> r_targets r2 = pre ++ t :: post -> is_filegroup t = false ->
+  stale_in false r1 (r_targets r1) (mkRun st0 [] []) = false -> dyn_ok r1 st0 = true ->
+  In t (r_targets r1) -> r_targets r2 = pre ++ t :: post -> is_filegroup t = false -> could_modify t = false ->
   let st1 := rn_st (build_all false r1 st0) in
   let before := fold_left (build_one false r2) pre (mkRun st1 [] []) in
+  stale_in false r2 pre (mkRun st1 [] []) = false ->
   source_key r2 (rn_st before) t = source_key r1 st1 t ->
   ~ In (t_label t) (rn_log (build_all false r2 st1)).
 Proof.
-  intros Hwf1 Hwf2 Hok Hin1 Hs2 Hfg st1 before Hkey Hlog.
-  apply wf_repo_WF in Hwf1. apply wf_repo_WF in Hwf2.
+  intros Hwf1 Hwf2 Hok Hq1 Hdyn1 Hin1 Hs2 Hfg Hcm st1 before Hq2 Hkey Hlog.
+  apply wf_repo_WF in Hwf1. apply wf_repo_WF in Hwf2. apply dyn_ok_DynOK in Hdyn1.
   (* after the first build t is settled *)
   assert (Hset : settled r1 st1 t).
   { subst st1. unfold build_all in *.
     assert (Hf : rn_failed (fold_left (build_one false r1) (r_targets r1) (mkRun st0 [] [])) = []).
     { unfold run_ok in Hok. destruct (rn_failed _); [reflexivity|discriminate]. }
     apply (run_settles r1 Hwf1 (r_targets r1) [] (mkRun st0 [] [])); auto. intros x []. }
-  unfold settled in Hset. rewrite Hfg in Hset.
+  unfold settled in Hset. rewrite Hfg, Hcm in Hset.
   (* when t's turn comes in the second build it is still not in need of building *)
-  destruct (view_preserved r2 Hwf2 pre (mkRun st1 [] []) [] t post Hs2) as [Ho Hm].
+  destruct (view_preserved r2 Hwf2 pre (mkRun st1 [] []) [] t post Hs2 Hq2) as [Ho Hm].
   fold before in Ho, Hm. cbn [rn_st] in Ho, Hm.
   assert (Hnb : needs_build r2 (rn_st before) t = false).
   { unfold needs_build in *. rewrite Hm, (common_rec_ext st1 (rn_st before) _ Ho), Hkey. exact Hset. }
@@ -552,7 +773,8 @@ Proof.
       + injection Hsplit as <- Hsplit. cbn [app map] in Hnd. inversion Hnd as [|? ? _ Hnd']; subst.
         destruct (IH Hnd' pre' Hsplit) as [-> ->]. split; reflexivity. }
   destruct Hpos as [-> ->]. fold before in Hex.
-  apply executed_needs_build in Hex. congruence.
+  apply executed_needs_build in Hex. destruct Hex as [Hex|Hex]; [congruence|].
+  unfold stale_flow in Hex. rewrite Hcm in Hex. discriminate.
 Qed.
 
 (* the source key is a function of the path-hash streams of the inputs: equal streams, equal key *)
